@@ -1420,7 +1420,7 @@ class Constructs(mixin.Container, core.Constructs):
                 if axis0 in axis0_to_axis1 and axis1 != axis0_to_axis1[axis0]:
                     logger.info(
                         f"{self.__class__.__name__}: Ambiguous axis mapping "
-                        f"({self.domain_axis_identity(axes0)} -> both "
+                        f"({self.domain_axis_identity(axis0)} -> both "
                         f"{other.domain_axis_identity(axis1)} and "
                         f"{other.domain_axis_identity(axis0_to_axis1[axis0])})"
                     )  # pragma: no cover
@@ -1432,8 +1432,8 @@ class Constructs(mixin.Container, core.Constructs):
                     logger.info(
                         f"{self.__class__.__name__}: Ambiguous axis mapping "
                         f"({self.domain_axis_identity(axis0)} -> both "
-                        f"{self.domain_axis_identity(axis1_to_axis0[axis0])} "
-                        f"and {other.domain_axis_identity(axes1)})"
+                        f"{self.domain_axis_identity(axis1_to_axis0[axis1])} "
+                        f"<- {other.domain_axis_identity(axis1)})"
                     )  # pragma: no cover
                     if not _return_axis_map:
                         return False
